@@ -23,7 +23,7 @@ CFG = """CONSTANTS
  Emit = TRUE
 INIT Init
 NEXT Next
-INVARIANTS KeysWellFormed NoEdgeBlanksUnquoted CommentNeutral RefRoundTrip SetThenGet
+INVARIANTS KeysWellFormed NoEdgeBlanksUnquoted CommentNeutral RefRoundTrip SetThenGet TwoHeaders
 CHECK_DEADLOCK FALSE
 """
 
